@@ -212,7 +212,7 @@ func symMultiStatus(maxResp int) *MultiStatus {
 			resp.Hrefs = append(resp.Hrefs, Href{Path: "/dav/r" + string(rune('0'+i)) + string(rune('a'+k))})
 		}
 		if vrt.Choose("has-response-status", 2) == 1 {
-			resp.Status = &Status{Code: vrt.Int("response-status")}
+			resp.Status = &Status{Code: vrt.IntRange("response-status", 100, 999)}
 			if vrt.Choose("has-error-element", 2) == 1 {
 				resp.Error = &Error{Raw: []RawXMLValue{*NewRawXMLElement(xml.Name{Space: "urn:x", Local: "cond"}, nil, nil)}}
 			}
@@ -229,7 +229,7 @@ func symMultiStatus(maxResp int) *MultiStatus {
 			}
 			nps := vrt.Choose("npropstats", maxps)
 			for k := 0; k < nps; k++ {
-				ps := PropStat{Status: Status{Code: vrt.Int("propstat-status")}}
+				ps := PropStat{Status: Status{Code: vrt.IntRange("propstat-status", 100, 999)}}
 				if k == 0 {
 					raw, _ := EncodeRawXMLElement(&GetETag{ETag: ETag("tag" + string(rune('0'+i)))})
 					ps.Prop.Raw = append(ps.Prop.Raw, *raw)
